@@ -22,6 +22,7 @@ structure MBatch where
   objs : List Nat
   raisedAt : Nat
   w : Option Nat := none
+  cycle : Nat := 0               -- v2: number of `flush-start` events seen when it was raised
   cbRet : Option Nat := none
   harnessB : Option Nat := none
 
@@ -35,6 +36,8 @@ structure Mon where
   shutdowns : Nat := 0
   pauseAt : Option Nat := none
   pauseCalls : Nat := 0
+  cycleNo : Nat := 0
+  flushCallAt : Option Nat := none   -- instant of the latest Flush() call
   effCalls : Nat := 0         -- Pause() calls made while the Batcher was certainly started and not paused, or possibly so
   pauseEvents : Nat := 0
   stale : Bool := false            -- a cost changed / an audit reset happened: demand monitors stop
@@ -131,6 +134,7 @@ def monitorHist (sc : HScn) (entries : List String) : List (String × String) :=
                       effCalls := m.effCalls + (if eff || maybe then 1 else 0) }
       else if a2 == "m" then m := { m with maxcap := some n3, maxcapAt := t }
       else if a2 == "F" then
+        m := { m with flushCallAt := some t }
         if (m.paused || m.started.isNone) && m.shutdownAt.isNone then m := { m with flushHeld := true }
       else if a2 == "X" then m := { m with stopAsked := true }
       else if a2 == "k" then m := { m with stale := true, costs := (n3, ((f.getD 4 "").toNat?).getD 0) :: m.costs }
@@ -180,6 +184,24 @@ def monitorHist (sc : HScn) (entries : List String) : List (String × String) :=
         match m.pauseAt with
         | some p => if t > p && t < p + sc.c.pause then m := m.add "C13" "batch-during-pause"
         | none => pure ()
+        -- C05: the shape of a batch, judged on the trace alone
+        let opW (o : Nat) : Nat := (sc.ops[o]?.map (·.w)).getD 0
+        let opB (o : Nat) : Bool := (sc.ops[o]?.map (·.batchable)).getD true
+        let bw := (objs.head?.map opW).getD 0
+        let mb := sc.c.wMaxBatch bw
+        if objs.isEmpty then m := m.add "C05" "empty-batch"
+        if objs.any fun o => opW o != bw then m := m.add "C05" "batch-mixes-watchers" |>.add "C01" "batch-mixes-watchers"
+        if objs.length > 1 && objs.any fun o => !opB o then m := m.add "C05" "non-batchable-operation-batched"
+        if mb > 0 && objs.length > mb then m := m.add "C05" "batch-larger-than-MaxBatchSize"
+        -- a watcher gets a second batch in one cycle only after its previous one was full. v2 delimits cycles by its
+        -- flush events; in v1 an instant holds one cycle unless a Flush() or a resume falls on it
+        let oneCycleInstant := m.flushCallAt != some t && (match m.pauseAt with | some p => t != p + sc.c.pause | none => true)
+        let sameCycle (b : MBatch) : Bool :=
+          if sc.c.gen == .v2 then b.cycle == m.cycleNo && m.cycleNo > 0 else b.raisedAt == t && oneCycleInstant
+        if objs.all opB then
+          let prev := m.batches.toList.filter fun b => sameCycle b && (b.objs.head?.map opW) == some bw && b.objs.all opB && !b.objs.isEmpty
+          if prev.any fun b => mb == 0 || b.objs.length < mb then
+            m := m.add "C05" "second-batch-in-a-cycle-although-the-previous-one-was-not-full"
         let bidx := m.batches.size
         -- match every delivered object to the oldest accepted, undelivered call of that object
         let mut calls := m.calls
@@ -188,7 +210,7 @@ def monitorHist (sc : HScn) (entries : List String) : List (String × String) :=
               && c.res != some "BufferFull" && c.res != some "Shutdown" && c.res != some "panic") with
           | some i => calls := calls.modify i fun c => { c with delivered := some bidx }
           | none => m := m.add "C01" "delivered-without-a-matching-accepted-enqueue"
-        m := { m with calls := calls, batches := m.batches.push { idx := bidx, objs := objs, raisedAt := t } }
+        m := { m with calls := calls, batches := m.batches.push { idx := bidx, objs := objs, raisedAt := t, cycle := m.cycleNo } }
       else if a2 == "shutdown" then
         if m.shutdowns > 0 then m := m.add "C16" "second-shutdown-event"
         m := { m with shutdowns := m.shutdowns + 1, shutdownAt := some t }
@@ -234,10 +256,19 @@ def monitorHist (sc : HScn) (entries : List String) : List (String × String) :=
           m := { m with auditFail := true, auditInFlight := m.auditInFlight || (healthy && !m.stale && inflightNow),
                         auditFailHealthy := m.auditFailHealthy || (healthy && !m.stale && !inflightNow) }
       else if a2 == "flush-start" then
+        m := { m with cycleNo := m.cycleNo + 1 }
         match m.pauseAt with
         | some p => if t > p && t < p + sc.c.pause then m := m.add "C13" "cycle-during-pause"
         | none => pure ()
         if m.shutdownAt.isSome then m := m.add "C16" "cycle-after-shutdown"
+        -- C02: one cycle per FlushInterval tick - a cycle begins on the tick grid since Start, at a resume (the tick or
+        -- Flush() that fell into the pause), or at the instant of a manual Flush() call
+        match m.started with
+        | some s0 =>
+          let onGrid := (t - s0) % sc.c.flushInt == 0
+          let atResume := match m.pauseAt with | some p => t == p + sc.c.pause | none => false
+          if !onGrid && !atResume && m.flushCallAt != some t then m := m.add "C02" "cycle-off-the-flush-interval-grid"
+        | none => m := m.add "C02" "cycle-before-start"
     else if kind == "cbstart" then
       -- f = [t, cbstart, b, w, objs, atts]
       let objs := objsOf (f.getD 4 "")
